@@ -1,6 +1,7 @@
 import Pcore.Proofs.DispatchRun
 import Pcore.Proofs.DispatchCtors
 import Pcore.Proofs.DispatchStruct
+import Pcore.Generated.FnFacts
 /-!
 # C16 — Dispatch and construction are type-safe
 
@@ -28,6 +29,13 @@ Full statement / proved / missing
                          `min(j,last)`, block requirement met (both directions: nothing outside the declaration is accepted,
                          nothing inside it is refused).
 * `C16_nomatch`        — `call = reported` ⇔ no dispatch is callable.
+* `C16_call_stateless`, `C16_call_history_free`, `C16_runSeq_first` — a sequence of calls on ONE resolved function object
+                         (`callSeq` threads the object through `callStep`) is the single-call semantics applied call by call:
+                         the answer is a function of (table, arguments, block) only, the same arguments get the same answer at
+                         every position, and each call runs the first creator whose declaration it satisfies.  (The model's
+                         `goFunction` has the fields the code has — `name`, `dispatchers` — and `Call` writes none: `C16_fn_facts`, by
+                         `decide` over the facts regenerated from internal/function.go on every run; the op
+                         `calls` compares whole sequences with the implementation.)
 * `C16_decl`           — for a dispatch built by an accepted builder sequence the tuple test equals the *positional reading of
                          the declaration* (`DeclAccepts`: every required parameter receives an argument, no surplus arguments
                          without a repeated parameter, argument `j` ∈ type of parameter `min(j,last)`), which does not mention
@@ -212,6 +220,45 @@ theorem C16_run_nomatch (cs : List (Creator T BT)) (args : List V) (blk : Option
     (hacc : ∃ bs, buildAll cs = .ok bs) :
     run inst binst cs args blk = .called .reported ↔ ∀ c ∈ cs, ¬ CreatorAccepts inst binst c args blk :=
   run_nomatch inst binst cs args blk hacc
+
+/-- obligation over the facts regenerated from internal/function.go: `goFunction` has no field beyond `name` and
+    `dispatchers` and none of its methods writes (or takes the address of) a receiver field — the function object carries
+    no call history.  A code change that adds such state breaks this obligation -/
+theorem C16_fn_facts : FnStateless Pcore.Generated.fnFacts = true := by decide
+
+/-- the answer to a call is a function of (table, arguments, block) only: in any sequence of calls on one resolved function
+    the `k`-th answer is `call` of the `k`-th arguments — whatever was called before -/
+theorem C16_call_stateless (s : FnState T BT) (calls : List (List V × Option B)) :
+    callSeq inst binst s calls = calls.map fun c => call inst binst s.dispatchers c.1 c.2 :=
+  callSeq_map inst binst calls s
+
+/-- hence the same arguments and block get the same answer at every position of every sequence -/
+theorem C16_call_history_free (s : FnState T BT) (calls : List (List V × Option B)) (i j : Nat) (c : List V × Option B)
+    (hi : calls[i]? = some c) (hj : calls[j]? = some c) :
+    (callSeq inst binst s calls)[i]? = (callSeq inst binst s calls)[j]? := by
+  simp [C16_call_stateless, List.getElem?_map, hi, hj]
+
+/-- and end to end: the body that runs for call `k` of a sequence is that of the first creator whose declaration its
+    arguments and block satisfy -/
+theorem C16_runSeq_first (cs : List (Creator T BT)) (calls : List (List V × Option B)) (os : List Outcome)
+    (h : runSeq inst binst cs calls = .called os) (k i : Nat) (hk : os[k]? = some (.ran i)) :
+    ∃ c, calls[k]? = some c ∧ run inst binst cs c.1 c.2 = .called (.ran i) := by
+  unfold runSeq at h
+  cases hb : buildAll cs with
+  | error p => simp [hb] at h
+  | ok bs =>
+    simp only [hb] at h
+    cases hr : resolveAll bs with
+    | error e => simp [hr] at h
+    | ok ds =>
+      simp only [hr] at h
+      cases h
+      rw [C16_call_stateless, List.getElem?_map] at hk
+      cases hc : calls[k]? with
+      | none => simp [hc] at hk
+      | some c =>
+        simp [hc] at hk
+        exact ⟨c, rfl, by simp [run, hb, hr, hk]⟩
 
 /-- an accepted table always resolves: the `NewIntegerType` error of `createDispatch` is unreachable -/
 theorem C16_run_no_fault (cs : List (Creator T BT)) (args : List V) (blk : Option B) (e : ResolveError) :
@@ -426,6 +473,13 @@ example : run inst binst sampleTable [.int 3, .bool true, .int 7] (some ⟨2, so
 -- Integer[0,5] rejects 6, so the catch-all third dispatch is the first match; an array goes to the first
 example : run inst binst sampleTable [.int 6] none = .called (.ran 2) := by decide
 example : run inst binst sampleTable [.arr [.int 1, .int 2]] none = .called (.ran 0) := by decide
+-- C16_call_stateless on overlapping dispatches (Integer[0,5] before Integer before Any): 50 goes to dispatch 1, and 3
+-- goes to dispatch 0 before and after it
+example : runSeq inst binst
+    [ { ops := [.param (.int (some 0) (some 5))], kind := .fn }, { ops := [.param (.int none none)], kind := .fn },
+      { ops := [.repeated .any], kind := .fn } ]
+    [([.int 3], (none : Option Blk)), ([.int 50], none), ([.int 3], none), ([.bool true], none), ([.int 3], none)] =
+    .called [.ran 0, .ran 1, .ran 0, .ran 2, .ran 0] := by rfl
 -- C16_new: a constructor that returns 7 whatever it is given — accepted by Integer, refused by Integer[0,5] and Init[Integer[0,5]]
 example : newInstance inst (.ctor (.int none none) fun _ => .value (.int 7)) [] = .value (.int 7) := rfl
 example : newInstance inst (.ctor (.int (some 0) (some 5)) fun _ => .value (.int 7)) [] = .reported "TYPE_MISMATCH" := rfl
